@@ -186,6 +186,10 @@ def run_property(prop, tier="quick", seed=0, replay=None, out=sys.stdout):
         for m in missed:
             print("[%s] SELFTEST-MISS: rule did not fire on mutant %s (checker weakness, not a violation of the tree)"
                   % (prop, m), file=out)
+        for r in selftest.get("results", []):
+            if r.get("status") == "FALSE-ALARM":
+                print("[%s] SELFTEST-FALSE-ALARM: rule(s) %s fired on the behaviour-preserving edit %s (checker weakness, not a "
+                      "violation of the tree)" % (prop, r.get("fired"), r.get("name")), file=out)
     ev = {
         "property_id": prop,
         "tier": tier,
